@@ -7,7 +7,8 @@ MODULE = "GoNfsd.Props.C01"
 
 
 def run(ctx):
-    ok_go, ok_drv = seqlib.build_and_prove(ctx, MODULE)
+    ok_go, ok_drv = seqlib.build_and_prove(ctx, MODULE, extra_parts=["skeleton"])
+    seqlib.report_flush_callers(ctx)
     if ok_go:
         if ctx.tier == "thorough":
             meta = ["-workloads", "24", "-ops", "60", "-images", "1500", "-second", "6"]
